@@ -12,6 +12,7 @@
     ([get_long]/[get_short]) resp. [find_subcommand] resolve that spelling at [cur]. *)
 From ClapModel Require Import Base.Bytes Base.Machine Base.Utf8.
 From ClapModel Require Import Parse.Cmd Parse.Build Parse.Valid Complete.EngineModel Complete.EngineProofs.
+From ClapModel Require Gen.EngineSites.
 From Coq Require Import ZArith.
 Open Scope N_scope.
 
@@ -21,6 +22,13 @@ Open Scope N_scope.
 Theorem C18_total : forall tbl c args i site, complete_model tbl c args i <> CPanic site.
 Proof. exact total. Qed.
 Print Assumptions C18_total.
+
+(** every [unreachable!]/[panic!]/[assert!] macro and every [expect]/[unwrap] call that the source of
+    complete.rs contains today (Gen/EngineSites.v, regenerated on every run) is a panic site of the
+    model, function by function - so C18_total speaks about all of them *)
+Theorem C18_sites_match : Gen.EngineSites.engine_panic_sites = model_panic_sites.
+Proof. exact sites_match. Qed.
+Print Assumptions C18_sites_match.
 
 (** the engine proper needs no fuel: only [Command::build] of the tree does *)
 Theorem C18_engine_no_fuel : forall tbl f c b args i,
@@ -76,3 +84,10 @@ Theorem C18_hidden_only_if_no_visible : forall tbl w c pi st l,
   forall x, In x l -> cd_hidden x = false -> forall y, In y l -> cd_hidden y = false.
 Proof. exact hidden_only_if_no_visible. Qed.
 Print Assumptions C18_hidden_only_if_no_visible.
+
+(** ... and when no raw candidate is visible, all hidden ones are kept ([finish] is the tail of
+    [complete_arg]: hidden filter, then de-duplication by id, first one wins) *)
+Theorem C18_hidden_kept_when_nothing_visible : forall raw,
+  (forall x, In x raw -> cd_hidden x = true) -> finish raw = dedup_ids [] raw.
+Proof. exact hidden_kept_when_nothing_visible. Qed.
+Print Assumptions C18_hidden_kept_when_nothing_visible.
